@@ -59,6 +59,8 @@ structure Cmd where
   writes : List OutDef
   /-- files outside inputs/outputs the command writes (external conditions inspected by output checks) -/
   sets : List (Path × Val)
+  /-- "splitter": output k is a copy of the k-th resolved input (so an edit can make two outputs swap contents) -/
+  split : Bool
 deriving DecidableEq
 
 /-- what a command can read when it runs -/
